@@ -85,6 +85,7 @@ type base struct {
 	name    string
 	kind    string          // mem | os | ossym
 	links   map[string]bool // planted symbolic links (kind os only): never objects
+	guard   string          // the directory that holds this root's sibling sentinels
 	bucket  storage.ReadWriteBucket
 	dir     string // os root
 	model   map[string]string
@@ -354,15 +355,17 @@ type getHandle struct {
 // ---- the run ----
 
 type sim struct {
-	tp          *tape.Tape
-	s           *sched.Sim
-	env         *engine.Env
-	bases       []*base
-	views       []view
-	puts        []*putHandle
-	gets        []*getHandle
-	root        string // scratch/run
-	sentinel    map[string]string
+	tp       *tape.Tape
+	s        *sched.Sim
+	env      *engine.Env
+	bases    []*base
+	views    []view
+	puts     []*putHandle
+	gets     []*getHandle
+	root     string // scratch/run
+	sentinel map[string]string
+	// forcePath, when set, is what drawPath returns (composite steps that come back to one path)
+	forcePath   string
 	prop        string
 	ctx         context.Context
 	counters    map[string]int
@@ -373,7 +376,7 @@ type sim struct {
 // siblings whose names extend a directory's name with a character that sorts below '/'
 // ("a-b", "a.d", "a.txt" next to "a/") separate path-wise from string-wise prefix handling
 var universeDirs = []string{"a", "a/x", "b", "b/y", "c", "a-b", "a.d", "b/y.z", ".cfg", ".a", "a/.x"}
-var universeNames = []string{"one.proto", "two.proto", "three.txt", "four", "five.proto", "a.txt", "one.proto.bak", "x.y", "sp ace.txt", "two  spaces.proto", "ünï.proto", " lead", "trail ", ".hidden", ".one.proto"}
+var universeNames = []string{"one.proto", "two.proto", "three.txt", "four", "five.proto", "a.txt", "one.proto.bak", "x.y", "sp ace.txt", "two  spaces.proto", "ünï.proto", " lead", "trail ", ".hidden", ".one.proto", "back\\slash.txt", "a\\b.proto"}
 var mapPrefixes = []string{"a", "a/x", "b", "zz", ".", ".cfg"}
 
 // C13 is about containment only: when this engine runs on its behalf, a bucket that merely
@@ -398,6 +401,14 @@ func (m *sim) newBase(i int) *base {
 		b.bucket = storagemem.NewReadWriteBucket()
 	default:
 		b.dir = filepath.Join(m.root, "outer", b.name, "root")
+		b.guard = filepath.Dir(b.dir)
+		inCwd := m.tp.Draw("rootincwd", 4) == 3
+		if inCwd {
+			// a root INSIDE the working directory, below a chain of directories that hold nothing
+			// else: removing "empty parent directories" must stop at the root
+			b.guard = filepath.Join(m.root, "outer", "B", "in"+b.name)
+			b.dir = filepath.Join(b.guard, "e1", "e2", "root")
+		}
 		if err := os.MkdirAll(b.dir, 0o755); err != nil {
 			panic(err)
 		}
@@ -417,6 +428,10 @@ func (m *sim) newBase(i int) *base {
 			rootArg = "../B/../" + b.name + "/./root"
 		case 3:
 			rootArg = "./../" + b.name + "//root/"
+		}
+		if inCwd {
+			rootArg = tape.Pick(m.tp, "rootspellincwd", []string{b.dir, "in" + b.name + "/e1/e2/root", "./in" + b.name + "/e1//e2/root/", "../B/in" + b.name + "/e1/e2/root", "../B/./in" + b.name + "/e1/../e1/e2/root"})
+			m.s.Probe("root-inside-working-directory")
 		}
 		if rootArg != b.dir {
 			m.s.Probe("relative-root")
@@ -493,6 +508,9 @@ func (m *sim) hostile() string {
 }
 
 func (m *sim) drawPath() (string, bool) {
+	if m.forcePath != "" {
+		return m.forcePath, false
+	}
 	if m.tp.Draw("hostile?", 4) == 3 {
 		return m.hostile(), true
 	}
@@ -1699,6 +1717,67 @@ func (m *sim) stepConcurrent() {
 	}
 }
 
+// stepUnionRevisit comes back to ONE path of ONE long-lived union / overlay view: look it up, put
+// the same path into another member, look it up again (and once more after deleting it from
+// there). Whatever the view remembers from the first look-up, the answers follow the model.
+func (m *sim) stepUnionRevisit() {
+	var unions []*multiView
+	for _, v := range m.views {
+		if mv, ok := v.(*multiView); ok {
+			unions = append(unions, mv)
+		}
+	}
+	if len(unions) == 0 {
+		return
+	}
+	mv := unions[m.tp.Draw("revisit-view", len(unions))]
+	m.forcePath = m.drawUniversePath()
+	defer func() { m.forcePath = "" }()
+	look := func() {
+		m.stepStat(mv)
+		m.stepGetOpen(mv)
+		// finish the reader at once so that later overwrites do not make it undefined
+		if n := len(m.gets); n > 0 && m.gets[n-1].v == view(mv) {
+			for len(m.gets) == n {
+				m.stepRead(m.gets[n-1], n-1)
+			}
+		}
+	}
+	var writable []view
+	for _, member := range mv.members {
+		if member.wb() != nil {
+			writable = append(writable, member)
+		}
+	}
+	if len(writable) == 0 {
+		look()
+		return
+	}
+	put := func(target view) {
+		before := len(m.puts)
+		m.stepPutOpen(target)
+		if len(m.puts) == before+1 {
+			h := m.puts[before]
+			m.stepWrite(h)
+			m.stepClose(h, before)
+		}
+	}
+	// the path in one member, then in a second one, then gone from one of them again
+	first := writable[m.tp.Draw("revisit-member", len(writable))]
+	if m.tp.Draw("revisit-prefill", 4) != 0 {
+		put(first)
+	}
+	look()
+	second := writable[m.tp.Draw("revisit-member2", len(writable))]
+	put(second)
+	look()
+	if m.tp.Draw("revisit-delete", 2) == 1 {
+		m.stepDelete(tape.Pick(m.tp, "revisit-delete-from", []view{first, second}))
+		look()
+	}
+	m.s.Probe("union-revisited")
+}
+
 // stepCachedModule: a cached module's marker file names the directory that holds its files. That
 // name comes from the disk, not from buf: a marker whose files_dir leaves the module's own directory
 // (pointing at a perfectly valid copy of the files elsewhere in the cache, so that no digest check can
@@ -2053,7 +2132,12 @@ func (m *sim) outside() map[string]string {
 	// directories that must continue to exist
 	for _, b := range m.bases {
 		if b.dir != "" {
-			for _, d := range []string{filepath.Dir(b.dir), filepath.Dir(filepath.Dir(b.dir))} {
+			// every directory between the run directory and the root
+			var chain []string
+			for d := filepath.Dir(b.dir); d != m.root && len(d) > len(m.root); d = filepath.Dir(d) {
+				chain = append(chain, d)
+			}
+			for _, d := range chain {
 				if fi, err := os.Stat(d); err != nil || !fi.IsDir() {
 					rel, _ := filepath.Rel(m.root, d)
 					out["<missing-dir>/"+rel] = "x"
@@ -2095,9 +2179,9 @@ func Run(tp *tape.Tape, env *engine.Env) *engine.Outcome {
 	_ = os.WriteFile(filepath.Join(m.root, "outer", "sentinel-outer.txt"), []byte("outer"), 0o644)
 	for _, b := range m.bases {
 		if b.dir != "" {
-			_ = os.WriteFile(filepath.Join(filepath.Dir(b.dir), "sentinel-sibling.txt"), []byte("sibling of "+b.name), 0o644)
-			_ = os.MkdirAll(filepath.Join(filepath.Dir(b.dir), "sib"), 0o755)
-			_ = os.WriteFile(filepath.Join(filepath.Dir(b.dir), "sib", "n"), []byte("sibling dir of "+b.name), 0o644)
+			_ = os.WriteFile(filepath.Join(b.guard, "sentinel-sibling.txt"), []byte("sibling of "+b.name), 0o644)
+			_ = os.MkdirAll(filepath.Join(b.guard, "sib"), 0o755)
+			_ = os.WriteFile(filepath.Join(b.guard, "sib", "n"), []byte("sibling dir of "+b.name), 0o644)
 		}
 	}
 	m.sentinel = m.outside()
@@ -2162,7 +2246,7 @@ func Run(tp *tape.Tape, env *engine.Env) *engine.Outcome {
 				m.stepPluginResponse(v)
 			}
 		case op == 19 && tp.Draw("special19", 4) == 3:
-			switch tp.Draw("which19", 5) {
+			switch tp.Draw("which19", 7) {
 			case 0:
 				name = "foreign-archive"
 				m.stepForeignArchive()
@@ -2175,6 +2259,9 @@ func Run(tp *tape.Tape, env *engine.Env) *engine.Outcome {
 			case 3:
 				name = "cached-module"
 				m.stepCachedModule()
+			case 4, 5:
+				name = "union-revisit"
+				m.stepUnionRevisit()
 			default:
 				name = "concurrent"
 				m.stepConcurrent()
